@@ -627,6 +627,32 @@ def rule_shared_tail(db: ProgramDB) -> List[Instance]:
         raise AnalysisError("HashedIterable: no loop pulling from self.iterable into the memo found")
     replayed = {unparse(s.value) for y in own_nodes(m.node) if isinstance(y, ast.Yield) and y.value is not None
                 for s in ast.walk(y.value) if isinstance(s, ast.Subscript) and unparse(s.value) in records}
+    # the position from which the record is replayed is taken together with the memo snapshot, before this iteration can be
+    # suspended: what another iteration pulls while the snapshot is being replayed is neither in the snapshot nor before a
+    # position taken afterwards
+    if replayed:
+        rec = sorted(replayed)[0]
+        idx_names = {x.id for y in own_nodes(m.node) if isinstance(y, ast.Yield) and y.value is not None
+                     for sub in ast.walk(y.value) if isinstance(sub, ast.Subscript) and unparse(sub.value) == rec
+                     for x in ast.walk(sub.slice) if isinstance(x, ast.Name)}
+        cfg_i = CFG(m)
+        inits = [nd for nd in cfg_i.nodes if nd.kind == "stmt" and isinstance(nd.ast, ast.Assign) and any(isinstance(t, ast.Name) and t.id in idx_names for t in nd.ast.targets)
+                 and any(isinstance(c, ast.Call) and dotted(c.func) == "len" and c.args and unparse(c.args[0]) == rec for c in ast.walk(nd.ast.value))]
+        first_init = None
+        for nd in inits:
+            # the initialisation: reachable from the entry without passing another assignment of the index
+            if cfg_i.find_path(cfg_i.entry, lambda x, nd=nd: x.id == nd.id, kinds=("n",), blocked=lambda x: x in inits and x is not nd) is not None:
+                first_init = nd if first_init is None or nd.lineno < first_init.lineno else first_init
+        if first_init is None:
+            raise AnalysisError("HashedIterable.__iter__: the initial position in the record of pulled elements was not found")
+        # every path to it is free of suspension points
+        late = cfg_i.find_path(cfg_i.entry, lambda x: x.has_yield, kinds=("n",), blocked=lambda x: x.id == first_init.id)
+        ok_pos = late is None
+        out.append(inst("SHARED-TAIL", HOLDS if ok_pos else VIOLATION, m, "HashedIterable.__iter__[position taken before the first suspension]",
+                        "the replay position is fixed before the iterator can be suspended (together with the memo snapshot)" if ok_pos else
+                        f"`{first_init.src()}` runs after a suspension point ({' '.join(cfg_i.describe_path(late)[-2:])}): an element another iteration pulls while this one "
+                        f"is still replaying the memo snapshot is in neither the snapshot nor the part of the record that is replayed, so a second "
+                        f"evaluation started on a part-pulled domain loses it", line=first_init.lineno))
     ok = bool(replayed)
     out.append(inst("SHARED-TAIL", HOLDS if ok else VIOLATION, m, "HashedIterable.__iter__[other iterations' pulls are replayed]",
                     f"the iterator replays `{sorted(replayed)[0]}` by position" if ok else
